@@ -90,7 +90,7 @@ def exact(rep):
     store = None
     if inner and pmatch(f"{evar}.items()", inner[0].iter) is not None and isinstance(inner[0].target, ast.Tuple) and len(inner[0].target.elts) == 2:
         u, v = [norm(e) for e in inner[0].target.elts]
-        b = pall(["$o[$u].add($v)", "$o[$v].add($u)"], inner[0], {"u": u, "v": v})
+        b = pall(["$o.setdefault($u, set()).add($v)", "$o.setdefault($v, set()).add($u)"], inner[0], {"u": u, "v": v})
         nadd = [c for c in walk_local(inner[0]) if isinstance(c, ast.Call) and call_name(c) == "add"]
         ok = b is not None and len(nadd) == 2
         store = b["o"] if b else None
